@@ -50,9 +50,10 @@ def gen_cfg(rng, disease, demog, second=None, small=True):
     dem = []
     if demog:
         dem.append(dict(type='deaths', death_rate=rng.choice([20, 60, 150])))
-        if rng.random() < 0.6:
-            dem.append(dict(type='pregnancy', fertility_rate=rng.choice([60, 150]), burnin=True))
-            if rng.random() < 0.5:
+        vertical = disease in ('syphilis', 'hiv') or second in ('syphilis', 'hiv')    # congenital outcomes need births + a maternal network
+        if vertical or rng.random() < 0.6:
+            dem.append(dict(type='pregnancy', fertility_rate=rng.choice([150, 300]) if vertical else rng.choice([60, 150]), burnin=True))
+            if vertical or rng.random() < 0.5:
                 cfg['networks'].append(dict(type='maternal'))
     cfg['demographics'] = dem
     return cfg
